@@ -574,7 +574,7 @@ impl Resolver<'_> {
                 let top = transform_call.input.ty.clone().unwrap();
                 let bottom = bottom.ty.clone().unwrap();
 
-                Some(type_intersection(top, bottom))
+                Some(type_intersection(top, bottom).with_span(transform_call.input.span)?)
             }
         })
     }
